@@ -26,7 +26,7 @@ ASSUMPTIONS = [
     "size cap lowered to 4096 in the check process",
 ]
 
-FAULTS = [None, None, None, "refuse", "garbage-hello", "close-before-header", "close-mid-header", "garbage-header",
+FAULTS = [None, None, None, "refuse", "garbage-hello", "close-before-header", "close-mid-header", "garbage-header", "garbage-header-long",
           "reset-mid-body", "fin-mid-body", "stall-before-header", "stall-mid-header", "stall-mid-body", "stall-no-accept"]
 TIMEOUT = 5.0
 
@@ -85,10 +85,12 @@ def case_st(draw):
             "via": draw(st.sampled_from(["object", "toml-int", "toml-float"])),
             # location timeout (s) and how long the upstream thinks before it answers
             "timing": draw(st.sampled_from([[5, 0], [5, 0], [5, 0], [50, 0], [50, 35], [50, 29.9], [120, 100]])),
+            # another proxy location for the same upstream with a much longer timeout, created first
+            "sibling": draw(st.booleans()),
             "tls_chunk": draw(st.sampled_from([0, 0, 5, 50]))}
 
 
-def _router_from_toml(via, TIMEOUT=TIMEOUT):
+def _router_from_toml(via, TIMEOUT=TIMEOUT, sibling=False):
     """[[locations]] handler = "proxy" with timeout written as an integer or a float, loaded like `nauyaca serve --config`."""
     import os
     import shutil
@@ -102,7 +104,8 @@ def _router_from_toml(via, TIMEOUT=TIMEOUT):
     d = scratch.subdir("c18-toml")
     try:
         doc = {"server": {"host": "127.0.0.1", "port": 1965, "document_root": d},
-               "locations": [{"prefix": "/", "handler": "proxy", "upstream": "gemini://up.example",
+               "locations": ([{"prefix": "/other/", "handler": "proxy", "upstream": "gemini://up.example", "timeout": 600}] if sibling else []) +
+                            [{"prefix": "/", "handler": "proxy", "upstream": "gemini://up.example",
                               "timeout": int(TIMEOUT) if via == "toml-int" else float(TIMEOUT)}]}
         p = os.path.join(d, "c.toml")
         with open(p, "wb") as f:
@@ -144,6 +147,10 @@ def run_case(case: dict):
             script += [("send", data[: max(1, hdr_end // 2)].replace(b"\r\n", b"")), ("mark",), ("close",)]
         elif fault == "garbage-header":
             script += [("send", b"\xff\xfe\x00garbage without status\r\nbody"), ("mark",), ("close",)]
+        elif fault == "garbage-header-long":
+            # valid UTF-8, no status, one long space-free token of multi-byte characters at an odd byte offset
+            tok = ("x" * (1 + case["chunk"] % 3) + "\u00e9" * 1500) if case["tls_chunk"] != 50 else ("y" + "\u65e5" * 900)
+            script += [("send", tok.encode("utf-8") + b"\r\nbody"), ("mark",), ("close",)]
         elif fault == "reset-mid-body":
             script += [("send", data[: hdr_end + max(0, (len(data) - hdr_end) // 2)]), ("mark",), ("reset",)]
         elif fault == "fin-mid-body":
@@ -161,9 +168,11 @@ def run_case(case: dict):
         if fault != "refuse":
             net.add("up.example", 1965, up)
         if case.get("via", "object") == "object":
+            if case.get("sibling"):
+                ProxyHandler(upstream="gemini://up.example", prefix="/other/", strip_prefix=False, timeout=600.0)
             route = ProxyHandler(upstream="gemini://up.example", prefix="/", strip_prefix=False, timeout=TIMEOUT).handle
         else:
-            route = _router_from_toml(case["via"], TIMEOUT).route
+            route = _router_from_toml(case["via"], TIMEOUT, bool(case.get("sibling"))).route
         tr = FakeTransport(loop)
         proto = GeminiServerProtocol(route, None)
         tr.attach(proto)
@@ -201,7 +210,7 @@ def run_case(case: dict):
     if t_resp > 2 * TIMEOUT + 0.5:
         return viol("response-too-late", f"{t_resp:.1f}s > {2 * TIMEOUT}s", **info)
     delivered = {"close-mid-header": b"", "close-before-header": b"", "stall-before-header": b"", "stall-mid-header": b"",
-                 "garbage-header": b"\xff", "refuse": b"", "garbage-hello": b"", "stall-no-accept": b""}
+                 "garbage-header": b"\xff", "garbage-header-long": b"x", "refuse": b"", "garbage-hello": b"", "stall-no-accept": b""}
     if fault is None:
         ref = c13.reference(data, "clean")
     elif fault in ("reset-mid-body", "fin-mid-body"):
